@@ -910,3 +910,28 @@ def kron(A, B, format=None):
             col.append(int(j) * Bc.shape[1] + int(l))
     r = coo_array((sarr(data) if data else np.zeros(0, dtype=object).view(SArr), (row, col)), shape=out_shape)
     return r.asformat(format)
+
+
+def block_diag(mats, format=None, dtype=None):
+    """scipy.sparse.block_diag: the blocks along the diagonal, entries block by block -- a sparse block contributes its stored entries in
+    its coo order, a dense block ALL its entries (zeros included) row-major"""
+    data, row, col = [], [], []
+    r0 = c0 = 0
+    for a in mats:
+        if isinstance(a, DenseBacked):
+            raise Unsupported("sparse model: block_diag of pattern-abstract matrices")
+        if isinstance(a, _Base):
+            c = a.tocoo()
+            nr, nc = c.shape
+            for v, i, j in zip(c.data, c.row, c.col):
+                data.append(v); row.append(int(i) + r0); col.append(int(j) + c0)
+        else:
+            d = np.atleast_2d(np.asarray(_strip(a), dtype=object))
+            nr, nc = d.shape
+            for i in range(nr):
+                for j in range(nc):
+                    data.append(d[i, j]); row.append(i + r0); col.append(j + c0)
+        r0 += nr
+        c0 += nc
+    r = coo_array((sarr(data) if data else np.zeros(0, dtype=object).view(SArr), (row, col)), shape=(r0, c0), dtype=dtype)
+    return r.asformat(format)
